@@ -69,15 +69,23 @@ def e1_key():
 
 
 def prune_old(keep):
+    """remove cache directories of other tree states: never one touched in the last two hours (another check may be
+    using it), otherwise keep the 12 most recent"""
     if not os.path.isdir(WORK):
         return
+    now = time.time()
     ds = []
     for d in os.listdir(WORK):
         p = os.path.join(WORK, d)
         if os.path.isdir(p) and d != keep and len(d) == 24:
-            ds.append((os.path.getmtime(p), p))
+            try:
+                m = max([os.path.getmtime(p)] + [os.path.getmtime(os.path.join(p, f)) for f in os.listdir(p)])
+            except OSError:
+                continue
+            if now - m > 7200:
+                ds.append((m, p))
     ds.sort()
-    for _, p in ds[:-2]:
+    for _, p in ds[:-12]:
         shutil.rmtree(p, ignore_errors=True)
 
 
